@@ -162,7 +162,13 @@ class Executor(EvalMixin, StmtMixin):
                     self.world.repo.module(attr)
                     return VModule('billiard.' + attr)
                 except OSError:
-                    raise SourceError(attr)
+                    if real_exception_class(attr) is not None:
+                        return VClass(attr)
+                    # a name re-exported by the package's __init__
+                    try:
+                        return self.global_name(attr, self.world.repo.module('__init__'))
+                    except Exception:
+                        raise SourceError(attr)
             except (SourceError, OSError, PyExc):
                 return VExternal('billiard.%s.%s' % (sub, attr))
         if modname in CONST_MODULES or modname.split('.')[0] in CONST_MODULES:
